@@ -71,6 +71,7 @@ Section Dry.
   Lemma d_apply_one pl g s p : dstep s (apply_one sc pl g s p).
   Proof.
     unfold apply_one. destruct (p_local p) as [l|]; [|base].
+    destruct (negb (kind_known sc (r_known s) (p_id p))); [tr; [|base]; base|].
     pose proof (step_policy_apply_filter sc Qd eq d_refl s (p_id p)) as P.
     destruct (policy_apply_filter sc s (p_id p)) as [s1 f1]. cbn [fst] in P.
     destruct (match f1 with FPass => _ | _ => _ end).
@@ -148,25 +149,25 @@ Section Dry.
     tr; [exact T|apply IH].
   Qed.
 
-  Lemma d_run_state c0 : dstep (init_state c0) (run_state sc c0).
+  Lemma d_run_state c0 : dstep (init_state sc c0) (run_state sc c0).
   Proof.
     unfold run_state. cbv zeta.
-    pose proof (step_inv_list sc Qd eq d_refl (init_state c0)) as L1.
-    destruct (inv_list sc (init_state c0)) as [s1 r1]. cbn [fst] in L1.
+    pose proof (step_inv_list sc Qd eq d_refl (init_state sc c0)) as L1.
+    destruct (inv_list sc (init_state sc c0)) as [s1 r1]. cbn [fst] in L1.
     destruct r1 as [st|]; [|tr; [exact L1|base]].
     match goal with |- context [fetch_all sc s1 ?c] => pose proof (step_fetch_all sc Qd eq d_refl d_trans c s1) as F;
       destruct (fetch_all sc s1 c) as [s2 r2] end. cbn [fst] in F.
     destruct r2 as [pobjs|]; [|tr; [exact L1|]; tr; [exact F|base]].
-    set (pl := build_plan sc _ pobjs).
+    set (pl := build_plan sc _ _ pobjs).
     pose proof (step_register sc Qd eq d_refl d_trans pl s2) as R.
     pose proof (step_inv_list sc Qd eq d_refl (register sc pl s2)) as L4.
     destruct (inv_list sc (register sc pl s2)) as [s4 r4]. cbn [fst] in L4.
-    assert (S4 : dstep (init_state c0) s4) by (tr; [exact L1|]; tr; [exact F|]; tr; [exact R|exact L4]).
+    assert (S4 : dstep (init_state sc c0) s4) by (tr; [exact L1|]; tr; [exact F|]; tr; [exact R|exact L4]).
     assert (V : forall errs s, dstep s (fold_left (fun s e => ev s (EValidation (sortn e))) errs s)).
     { intros errs s. apply (step_fold Qd eq d_refl d_trans). intros; base. }
     destruct (o_valpol (sc_opts sc)); destruct (pl_valerrs pl) eqn:EV.
     all: try (tr; [exact S4|base]).
-    all: assert (S6 : forall errs, dstep (init_state c0)
+    all: assert (S6 : forall errs, dstep (init_state sc c0)
                  (ev (fold_left (fun s e => ev s (EValidation (sortn e))) errs s4)
                      (EInit (map (fun t => (task_name t, task_ids pl t)) (tasks_of sc pl)))))
       by (intros errs; tr; [exact S4|]; tr; [apply V|apply (step_ev Qd eq d_refl Qd_ev)]).
